@@ -325,7 +325,8 @@ def _kernels():
     reg('raise_native_type', ['fl'], lambda I: mahotas._convolve.convolve(g(I, 'fl'), np.ones((3, 3), np.float32),
                                                                           np.empty_like(g(I, 'fl')), 0))
     from . import c12_extra            # the other properties' functions (used by harness/foundation/concurrent.py)
-    c12_extra.register(reg, g, mh, np)
+    _own = set(K)                      # a name this module registered itself keeps its definition
+    c12_extra.register(lambda n, u, f: None if n in _own else reg(n, u, f), g, mh, np)
     return K
 
 
